@@ -110,6 +110,10 @@ def one_case(args):
             sched = env["FASTPASTA_VERIF_SCHED"]
         use_pipe = rng.random() < 0.5
         argv = [exe] + ([] if use_pipe else [p]) + rng.choice([["check", "all", "its"], ["check", "all", "its-stave"], ["view", "rdh"], ["check", "all"]]) + ["-E", str(N)]
+        if len(s.links) > 1 and not ignored_output and rng.random() < 0.5:
+            # the framing error sits in a packet that a filter skips (the skip loop has its own handling of the offset)
+            other = [l for l in s.links if l.link_id != s.links[pk[i].link].link_id]
+            argv += ["-f", str(rng.choice(other).link_id)]
         if use_pipe:
             kw = dict(stdin_data=data, chunk=32768)
         desc = "%s: fatal framing error at packet %d of %d, %s" % (kind, i, len(pk), " ".join(argv[1:5]))
@@ -117,7 +121,8 @@ def one_case(args):
         argv = argv + ["-f", str(s.links[0].link_id), "-o", os.path.join(wd, "c%d.ignored" % case)]
         desc += " + ignored -f/-o"
     out["sample"] = desc + (" [schedule %s]" % sched if sched else "")
-    o = procmon.run(argv, env=env, cwd=wd, **kw)
+    cpu_bound = 30.0 + len(data) / 50000.0     # normal runs need well under a second of CPU time per MB
+    o = procmon.run(argv, env=env, cwd=wd, cpu_limit=cpu_bound, **kw)
 
     def bad(what):
         files.update({"stderr.txt": o.stderr, "stdout.head": o.stdout[:4000]})
@@ -132,6 +137,8 @@ def one_case(args):
             return out
         if o.hung:
             return bad("no progress: the process is alive, all threads sleep and no CPU time is consumed after the stop condition (deadlock)")
+        if o.cpu_exceeded:
+            return bad("no termination: %.0f s of CPU time consumed (bound %.0f s for %d bytes of input) and still running after the stop condition" % (o.cpu_exceeded, cpu_bound, len(data)))
         if o.sig is not None:
             return bad("killed by signal %d" % o.sig)
         if o.panicked():
